@@ -11,7 +11,10 @@ PROPS = {
                     expect=["Individual<P>::solution_mut", "Individual<P>::evaluate_with", "Individual<P>::set_objective",
                             "<Individual<P> as Clone>::clone"])],
         kani=[dict(files=["contracts/C05/c05.rs"])],
-        native=[dict(files=["contracts/C07/whole_run_native.rs"],
+        native=[dict(files=["contracts/C05/c05_native.rs"],
+                     harnesses={"c05_native_components_keep_objectives_fresh": dict(anchor="solution-editing components on evaluated individuals",
+                                bound="BOUNDED STAND-IN, native run: 4 boundary-repair and 4 real / 1 bit / 2 permutation mutation components on evaluated populations (coordinates inside, on, a hair outside and clearly outside the domain) x 8 seeds")}),
+                dict(files=["contracts/C07/whole_run_native.rs"],
                      harnesses={"c05_native_whole_runs": dict(anchor="whole runs of the shipped templates (final state)",
                                 bound=B + "every evaluated individual on the final population stack and the best-so-far carry f(solution)")})],
         min_obligations={"quick": 19, "thorough": 19},
